@@ -253,7 +253,7 @@ func confCanonEvents(evs []string) []string {
 func TestVerifC18EtcdConformance(t *testing.T) {
 	rep := vh.New(t, "C18")
 	defer rep.Finish()
-	rep.Rule = "fake-etcd conformance: every sequence of <=2 operations over 18 shapes plus every sequence of 3 over the 8 transaction/lease shapes (thorough: <=3 and 4) over the shapes the repository uses, on the fake and on the embedded real etcd, responses and watch event lists compared; distinct = distinct (sequence, responses); non-trivial = sequence contains a transaction or a lease operation"
+	rep.Rule = "fake-etcd conformance: every sequence of <=2 operations over 17 shapes plus every sequence of 3 over the 8 transaction/lease shapes (thorough: <=3 and 4) over the shapes the repository uses, on the fake and on the embedded real etcd, responses and watch event lists compared; distinct = distinct (sequence, responses); non-trivial = sequence contains a transaction or a lease operation"
 	if ok, _ := vh.LoadReplay(&struct{}{}); ok {
 		return
 	}
@@ -301,7 +301,7 @@ func TestVerifC18EtcdConformance(t *testing.T) {
 		}
 		return true
 	}
-	small := []confOp{confOps[0], confOps[3], confOps[7], confOps[9], confOps[11], confOps[13], confOps[15], confOps[17]}
+	small := []confOp{confOps[0], confOps[3], confOps[7], confOps[9], confOps[11], confOps[13], confOps[14], confOps[16]} // put, putLease, del, txnCreate, txnPutIfValue, txnDelIfValue(v1), txnPutIfMod, revoke
 	full := 2
 	if vh.Thorough() {
 		full = 3
